@@ -144,7 +144,8 @@ class World1Flask(World1):
         register_temporary_credential_hooks(server, cache)
         server.register_hook("create_token_credential", lambda token, temp: st.creds.setdefault(
             token["oauth_token"], mem1.TokenCred(token["oauth_token"], token["oauth_token_secret"], temp.get_client_id(), temp.get_user_id())))
-        rp = ResourceProtector(app, query_client=lambda cid: st.clients.get(cid), query_token=lambda cid, t: st.creds.get(t), exists_nonce=create_exists_nonce_func(cache))
+        rp = ResourceProtector(app, query_client=lambda cid: st.clients.get(cid), query_token=lambda cid, t: (st.creds.get(t) if st.creds.get(t) is not None and st.creds[t].client_id == cid else None),
+                               exists_nonce=create_exists_nonce_func(cache))
         self._user = [None]
 
         @app.route("/initiate", methods=["POST"])
@@ -207,6 +208,124 @@ class World1Flask(World1):
         for k, (v, _) in self.cache.d.items():
             if k.startswith("temporary_credential:"):
                 temps.append([k.split(":", 1)[1], v.get("client_id"), v.get("oauth_verifier"), v.get("user_id")])
+        return {"temps": sorted(temps), "creds": sorted([k, c.client_id, c.user_id] for k, c in self.store.creds.items())}
+
+
+class World1Django(World1Flask):
+    """… and against the Django integration: django_oauth1.CacheAuthorizationServer + ResourceProtector on Django's cache, fake model classes"""
+    def __init__(self, methods):
+        from django.conf import settings
+        if not settings.configured:
+            settings.configure(DEBUG=False, SECRET_KEY="x", ALLOWED_HOSTS=["*"])
+        import django
+        django.setup()
+        from django.core.cache import cache as dcache
+        from authlib.integrations.django_oauth1 import CacheAuthorizationServer, ResourceProtector
+        import authlib.integrations.django_oauth1.authorization_server as das
+        CLOCK.now = NOW0
+        dcache.clear()
+        self.dcache = dcache
+        self.store = st = mem1.Store1()
+        st.clients["ca"] = mem1.Client1("ca", SECRETS["ca"], "https://a/cb", None)
+        st.clients["cb"] = mem1.Client1("cb", SECRETS["cb"], "https://b/cb", None)
+        self.cfg = {"clients": [{"id": k, "secret": v} for k, v in SECRETS.items()], "methods": list(methods), "now": NOW0}
+        das.generate_token = lambda n=36: st.nxt("ver")
+        self._phase = ["initiate"]
+
+        def model(find, ctor=None):
+            class DoesNotExist(Exception):
+                pass
+
+            class Objects:
+                @staticmethod
+                def get(**kw):
+                    r = find(kw)
+                    if r is None:
+                        raise DoesNotExist()
+                    return r
+            ns = {"DoesNotExist": DoesNotExist, "objects": Objects}
+            return type("M", (), ns)
+        CM = model(lambda kw: st.clients.get(kw.get("client_id")))
+
+        class TokenRow(mem1.TokenCred):
+            def __init__(self, oauth_token, oauth_token_secret, user_id, client_id):
+                super().__init__(oauth_token, oauth_token_secret, client_id, user_id)
+            def save(self):
+                st.creds[self.token] = self
+        TokenRow.DoesNotExist = type("DoesNotExist", (Exception,), {})
+        class _Objects:
+            @staticmethod
+            def get(client_id=None, oauth_token=None):
+                c = st.creds.get(oauth_token)
+                if c is None or c.client_id != client_id:
+                    raise TokenRow.DoesNotExist()
+                return c
+        TokenRow.objects = _Objects
+
+        def gen():
+            a, b = ("tmp", "tsec") if self._phase[0] == "initiate" else ("tok", "sec")
+            return {"oauth_token": st.nxt(a), "oauth_token_secret": st.nxt(b)}
+        settings.AUTHLIB_OAUTH1_PROVIDER = {"signature_methods": list(methods)}
+        try:
+            self.srv = CacheAuthorizationServer(CM, TokenRow, token_generator=gen)
+            self.rp = ResourceProtector(CM, TokenRow)
+        finally:
+            del settings.AUTHLIB_OAUTH1_PROVIDER
+
+    def _step(self, op):
+        from django.http import JsonResponse
+        from django.test import RequestFactory
+        k = op["op"]
+        rf = RequestFactory()
+        def hdrs(h):
+            return {"HTTP_" + n.upper().replace("-", "_"): v for n, v in h.items()}
+        try:
+            if k == "advance":
+                CLOCK.now += op["dt"]; return self.out(200)
+            if k == "authorize":
+                req = rf.get("/authorize" + (f"?oauth_token={op['token']}" if op.get("token") is not None else ""), secure=True, HTTP_HOST="sp.example")
+                try:
+                    r = self.srv.create_authorization_response(req, User(op["user"]) if op.get("user") is not None else None)
+                except OAuth1Error as e:
+                    return self.out(e.status_code, e.error)
+                if r.status_code != 302:
+                    return self.out(r.status_code, dict(parse_qsl(r.content.decode())).get("error"))
+                q = dict(parse_qsl(urlparse(r["Location"]).query))
+                if "error" in q:
+                    return self.out(302, q["error"])
+                return self.out(302, None, q.get("oauth_token"), None, q.get("oauth_verifier"))
+            if k == "initiate":
+                self._phase[0] = "initiate"
+                h = self.signed_headers(op, "POST", "https://sp.example/initiate", callback=op.get("callback"))
+                r = self.srv.create_temporary_credentials_response(rf.post("/initiate", secure=True, HTTP_HOST="sp.example", **hdrs(h)))
+            elif k == "exchange":
+                self._phase[0] = "token"
+                h = self.signed_headers(op, "POST", "https://sp.example/token", token=op.get("token"), verifier=op.get("verifier"))
+                r = self.srv.create_token_response(rf.post("/token", secure=True, HTTP_HOST="sp.example", **hdrs(h)))
+            else:
+                h = self.signed_headers(op, "GET", "https://sp.example/resource", token=op.get("token"))
+                seen = {}
+                def view(request):
+                    seen["t"] = request.oauth1_credential.get_oauth_token()
+                    return JsonResponse({"ok": True})
+                r = self.rp()(view)(rf.get("/resource", secure=True, HTTP_HOST="sp.example", **hdrs(h)))
+                if r.status_code == 200:
+                    return self.out(200, None, seen.get("t"))
+                import json as _json
+                return self.out(r.status_code, _json.loads(r.content.decode()).get("error"))
+            body = dict(parse_qsl(r.content.decode()))
+            if r.status_code != 200:
+                return self.out(r.status_code, body.get("error"))
+            return self.out(200, None, body["oauth_token"], body["oauth_token_secret"])
+        except Exception as e:
+            return {"raised": type(e).__name__ + ": " + str(e)[:80]}
+
+    def snapshot(self):
+        temps = []
+        for n in range(1, self.store.fresh + 1):
+            v = self.dcache.get(f"temporary_credential:tmp{n}")
+            if v:
+                temps.append([f"tmp{n}", v.get("client_id"), v.get("oauth_verifier"), v.get("user_id")])
         return {"temps": sorted(temps), "creds": sorted([k, c.client_id, c.user_id] for k, c in self.store.creds.items())}
 
 
@@ -496,9 +615,10 @@ def impl(c):
         return {"outs": outs, "store": w.snapshot()}
     out = run(World1(c["cfg"]["methods"]))
     if not any(op.get("fault") is not None for op in c["ops"]):
-        o2 = run(World1Flask(c["cfg"]["methods"]))       # the Flask integration with its own cache hooks must answer the same
-        if o2 != out:
-            out["differs:flask"] = o2
+        for name, W in (("flask", World1Flask), ("django", World1Django)):      # the integrations with their own cache hooks must answer the same
+            o2 = run(W(c["cfg"]["methods"]))
+            if o2 != {k: x for k, x in out.items() if not k.startswith("differs:")}:
+                out["differs:" + name] = o2
     return out
 
 
@@ -522,8 +642,9 @@ def project(c, out):
 
 def oracle(c, out):
     v = oracle_one(c, {k: x for k, x in out.items() if not k.startswith("differs:")})
-    if "differs:flask" in out:
-        v += [("[Flask integration with its cache hooks] " + what, dict(sig, fw="flask")) for what, sig in oracle_one(c, out["differs:flask"])]
+    for name in ("flask", "django"):
+        if "differs:" + name in out:
+            v += [(f"[{name} integration with its cache hooks] " + what, dict(sig, fw=name)) for what, sig in oracle_one(c, out["differs:" + name])]
     return v
 
 
@@ -600,6 +721,8 @@ def oracle_one(c, out):
             cr = creds.get(op.get("token"))
             if cr is None or op.get("signed_with") != [SECRETS.get(op.get("client")), cr["secret"]]:
                 bad("protected resource served to a request not signed with the client's secret and a stored token credential's secret", kind="access-wrongly")
+            elif cr["client"] != op.get("client"):
+                bad(f"protected resource served to client {op.get('client')!r} presenting the token credential issued to {cr['client']!r}", kind="access-foreign-token")
     return v
 
 
